@@ -6,6 +6,7 @@
 //!   `extra <key>…`                    → `ok`                      extra readonly accounts appended after the metas
 //!   `drop <i> s|w`                    → `ok`                      account i is created without that flag
 //!   `grant <i> s|w`                   → `ok`                      account i is created with that flag in addition
+//!   `grantall s|w|sw`                 → `ok`                      every account is created with the flag(s) in addition (replaces earlier grants)
 //!   `ix <decode-arg> <a> <b> <c> <d>` → `ok <data-hex>`           `MakeInstruction::instruction`
 //!   `run`                             → `ok used=<n> rem=<k> val=<decoded> v=<ok|sig|wr|key> args=<a>,<b>,<c>,<d>` | `err:<class>`
 //!   `cpi`                             → `ok metas=<…> infos=<key,…> decl=<n>` | `err:<class>`
@@ -637,6 +638,15 @@ fn exec_inner<'a>(rec: &mut Recorder, table: &'a [SetEntry], st: &mut St<'a>, t:
             st.run = None;
             "ok".into()
         }
+        ["grantall", f] => {
+            // every account gets the flag(s) on top of what its meta asks for (replaces earlier grants)
+            if st.client.is_none() || !["s", "w", "sw"].contains(f) {
+                return bad();
+            }
+            st.grants = (0..st.metas.len()).flat_map(|i| f.chars().map(move |c| (i, c))).collect();
+            st.run = None;
+            "ok".into()
+        }
         ["ix", darg, a, b, c, d] => {
             let (Some(e), Some(client)) = (st.entry, st.client.clone()) else { return bad() };
             let (Some(darg), Some(a), Some(b), Some(d)) = (Sexp::parse(darg), small_dec(a, 3), small_dec(b, 20), unhex(d)) else { return bad() };
@@ -1083,7 +1093,15 @@ fn emit_group<'a>(rec: &mut Recorder, table: &'a [SetEntry], st: &mut St<'a>, rn
     exec(rec, table, st, &format!("ix {darg} {} {b} {} {}", rng.below(256), rng.below(2), hex(&dbytes)));
     exec(rec, table, st, "run");
     exec(rec, table, st, "cpi");
-    let _ = tampered;
+    // the same instruction on infos that carry STRICTLY MORE privileges than their slots ask for (+signer,
+    // +writable, both — e.g. the caller's fee payer in a read-only slot): nothing may change, in particular the CPI metas
+    if n > 0 && !tampered && (!perturb || rng.chance(1, 4)) {
+        for f in ["s", "w", "sw"] {
+            exec(rec, table, st, &format!("grantall {f}"));
+            exec(rec, table, st, "run");
+            exec(rec, table, st, "cpi");
+        }
+    }
 }
 
 /// change one vector length in a decode argument by ±1
@@ -1131,7 +1149,7 @@ pub fn run(args: &Args) {
          generic derived sets, every decode-argument form) + 30 seeded-random generated sets (bin/gen_c14_sets.py); \
          one case per (derived account set, batch): every present/absent combination of its optional accounts at vec/rest lengths 0..2 \
          (capped), then PRNG-driven values (lengths 0..3, default/explicit/wrong fixed addresses, accounts that equal the program id, \
-         extra trailing accounts, one required flag dropped, surplus flags granted, one vector length argument off by one). A case is non-trivial when it \
+         extra trailing accounts, one required flag dropped, surplus flags granted (single accounts at random; and every run of the enumeration repeated with +signer, +writable, +both on ALL accounts), one vector length argument off by one). A case is non-trivial when it \
          contains a run with an absent optional, a run with a non-empty vec/rest, or a rejected (validation / decode error) run; \
          distinct by case text hash.",
     );
@@ -1168,7 +1186,7 @@ pub fn run(args: &Args) {
     let mut rng = Rng::new(args.seed);
     let thorough = args.thorough();
     let table_line = format!("table {}", all_discs(&table).join(" "));
-    let (enum_cap, n_batches, per_batch) = if thorough { (1024, 20, 100) } else { (128, 4, 40) };
+    let (enum_cap, n_batches, per_batch) = if thorough { (512, 12, 100) } else { (128, 4, 40) };
     for (si, e) in table.iter().enumerate() {
         let shape = (e.shape)();
         let ty = (e.argty)();
